@@ -1222,6 +1222,150 @@ def gen_lexical(lines):
 GENERATORS.append(("Lexical", gen_lexical))
 
 
+# ------------------------------------------------------------------ lexical/math.rs limb arithmetic (C07, Model.LexMath)
+LEXMATH_SHAPES = {
+    ('scalar', 'add'):
+        '{x.overflowing_add(y)}',
+    ('scalar', 'iadd'):
+        '{lett=add(*x,y);*x=t.0;t.1}',
+    ('scalar', 'sub'):
+        '{x.overflowing_sub(y)}',
+    ('scalar', 'isub'):
+        '{lett=sub(*x,y);*x=t.0;t.1}',
+    ('scalar', 'mul'):
+        '{letz:Wide=as_wide(x)*as_wide(y)+as_wide(carry);letbits=mem::size_of::<Limb>()*8;(as_limb(z),as_limb(z>>bits))}',
+    ('scalar', 'imul'):
+        '{lett=mul(*x,y,carry);*x=t.0;t.1}',
+    ('small', 'iadd_impl'):
+        '{ifx.len()<=xstart{x.push(y);}else{letmutcarry=scalar::iadd(&mutx[xstart],y);letmutsize=xstart+1;whilecarry&&size<x.len(){carry=scalar::iadd(&mutx[size],1);size+=1;}ifcarry{x.push(1);}}}',
+    ('small', 'iadd'):
+        '{iadd_impl(x,y,0);}',
+    ('small', 'isub_impl'):
+        '{debug_assert!(x.len()>xstart&&(x[xstart]>=y||x.len()>xstart+1));letmutcarry=scalar::isub(&mutx[xstart],y);letmutsize=xstart+1;whilecarry&&size<x.len(){carry=scalar::isub(&mutx[size],1);size+=1;}normalize(x);}',
+    ('small', 'imul'):
+        '{letmutcarry:Limb=0;forxiin&mut*x{carry=scalar::imul(xi,y,carry);}ifcarry!=0{x.push(carry);}}',
+    ('small', 'mul'):
+        '{letmutz=Vec::<Limb>::default();z.extend_from_slice(x);imul(&mutz,y);z}',
+    ('small', 'imul_pow5'):
+        '{usesuper::large::KARATSUBA_CUTOFF;letsmall_powers=POW5_LIMB;letlarge_powers=large_powers::POW5;ifn==0{return;}letbit_length=32-n.leading_zeros()asusize;debug_assert!(bit_length!=0&&bit_length<=large_powers.len());ifx.len()+large_powers[bit_length-1].len()<2*KARATSUBA_CUTOFF{letstep=small_powers.len()-1;letpower=small_powers[step];letmutn=nasusize;whilen>=step{imul(x,power);n-=step;}imul(x,small_powers[n]);}else{letmutidx:usize=0;letmutbit:usize=1;letmutn=nasusize;whilen!=0{ifn&bit!=0{debug_assert!(idx<large_powers.len());large::imul(x,large_powers[idx]);n^=bit;}idx+=1;bit<<=1;}}}',
+    ('small', 'leading_zeros'):
+        '{x.last().map_or(0,|x|x.leading_zeros()asusize)}',
+    ('small', 'bit_length'):
+        '{letbits=mem::size_of::<Limb>()*8;letnlz=leading_zeros(x);bits.checked_mul(x.len()).map_or_else(usize::max_value,|v|v-nlz)}',
+    ('small', 'ishl_bits'):
+        '{letbits=mem::size_of::<Limb>()*8;debug_assert!(n<bits);ifn==0{return;}letrshift=bits-n;letlshift=n;letmutprev:Limb=0;forxiin&mut*x{lettmp=*xi;*xi<<=lshift;*xi|=prev>>rshift;prev=tmp;}letcarry=prev>>rshift;ifcarry!=0{x.push(carry);}}',
+    ('small', 'ishl_limbs'):
+        '{debug_assert!(n!=0);if!x.is_empty(){x.reserve(n);x.splice(..0,iter::repeat(0).take(n));}}',
+    ('small', 'ishl'):
+        '{letbits=mem::size_of::<Limb>()*8;letrem=n%bits;letdiv=n/bits;ishl_bits(x,rem);ifdiv!=0{ishl_limbs(x,div);}}',
+    ('small', 'normalize'):
+        '{whilex.last()==Some(&0){x.pop();}}',
+    ('large', 'compare'):
+        '{ifx.len()>y.len(){cmp::Ordering::Greater}elseifx.len()<y.len(){cmp::Ordering::Less}else{letiter=x.iter().rev().zip(y.iter().rev());for(&xi,&yi)initer{ifxi>yi{returncmp::Ordering::Greater;}elseifxi<yi{returncmp::Ordering::Less;}}cmp::Ordering::Equal}}',
+    ('large', 'less'):
+        '{compare(x,y)==cmp::Ordering::Less}',
+    ('large', 'greater_equal'):
+        '{!less(x,y)}',
+    ('large', 'iadd_impl'):
+        '{ify.len()>x.len()-xstart{x.resize(y.len()+xstart,0);}letmutcarry=false;for(xi,yi)inx[xstart..].iter_mut().zip(y.iter()){letmuttmp=scalar::iadd(xi,*yi);ifcarry{tmp|=scalar::iadd(xi,1);}carry=tmp;}ifcarry{small::iadd_impl(x,1,y.len()+xstart);}}',
+    ('large', 'iadd'):
+        '{iadd_impl(x,y,0);}',
+    ('large', 'add'):
+        '{letmutz=Vec::<Limb>::default();z.extend_from_slice(x);iadd(&mutz,y);z}',
+    ('large', 'isub'):
+        '{debug_assert!(greater_equal(x,y));letmutcarry=false;for(xi,yi)inx.iter_mut().zip(y.iter()){letmuttmp=scalar::isub(xi,*yi);ifcarry{tmp|=scalar::isub(xi,1);}carry=tmp;}ifcarry{small::isub_impl(x,1,y.len());}else{small::normalize(x);}}',
+    ('large', 'long_mul'):
+        '{letmutz:Vec<Limb>=small::mul(x,y[0]);z.resize(x.len()+y.len(),0);for(i,&yi)iny[1..].iter().enumerate(){letzi:Vec<Limb>=small::mul(x,yi);iadd_impl(&mutz,&zi,i+1);}small::normalize(&mutz);z}',
+    ('large', 'karatsuba_split'):
+        '{(&z[..m],&z[m..])}',
+    ('large', 'karatsuba_mul'):
+        '{ify.len()<=KARATSUBA_CUTOFF{long_mul(x,y)}elseifx.len()<y.len()/2{karatsuba_uneven_mul(x,y)}else{letm=y.len()/2;let(xl,xh)=karatsuba_split(x,m);let(yl,yh)=karatsuba_split(y,m);letsumx=add(xl,xh);letsumy=add(yl,yh);letz0=karatsuba_mul(xl,yl);letmutz1=karatsuba_mul(&sumx,&sumy);letz2=karatsuba_mul(xh,yh);isub(&mutz1,&z2);isub(&mutz1,&z0);letlen=z0.len().max(m+z1.len()).max(2*m+z2.len());letmutresult=z0;result.reserve_exact(len-result.len());iadd_impl(&mutresult,&z1,m);iadd_impl(&mutresult,&z2,2*m);result}}',
+    ('large', 'karatsuba_uneven_mul'):
+        '{letmutresult=Vec::<Limb>::default();result.resize(x.len()+y.len(),0);letmutstart=0;while!y.is_empty(){letm=x.len().min(y.len());let(yl,yh)=karatsuba_split(y,m);letprod=karatsuba_mul(x,yl);iadd_impl(&mutresult,&prod,start);y=yh;start+=m;}small::normalize(&mutresult);result}',
+    ('large', 'karatsuba_mul_fwd'):
+        '{ifx.len()<y.len(){karatsuba_mul(x,y)}else{karatsuba_mul(y,x)}}',
+    ('large', 'imul'):
+        '{ify.len()==1{small::imul(x,y[0]);}else{*x=karatsuba_mul_fwd(x,y);}}',
+    ('', 'nonzero'):
+        '{letlen=x.len();letslc=&x[..len-rindex];slc.iter().rev().any(|&x|x!=T::ZERO)}',
+    ('', 'u64_to_hi64_1'):
+        '{debug_assert!(r0!=0);letls=r0.leading_zeros();(r0<<ls,false)}',
+    ('', 'u64_to_hi64_2'):
+        '{debug_assert!(r0!=0);letls=r0.leading_zeros();letrs=64-ls;letv=matchls{0=>r0,_=>(r0<<ls)|(r1>>rs),};letn=r1<<ls!=0;(v,n)}',
+}
+
+
+def gen_lexmath(lines):
+    """limb tables of large_powers64.rs, KARATSUBA_CUTOFF, the limb width the sandbox compiles, and the shape of every
+    function of math.rs that Model/LexMath.lean transcribes (whitespace- and comment-insensitive)"""
+    mt_raw = src("lexical/math.rs")
+    mt = re.sub(r"\s+", "", strip_rust_comments(mt_raw))
+    br = re.sub(r"\s+", "", strip_rust_comments(open(os.path.join(REPO, "build.rs"), encoding="utf-8").read()))
+    lines.append("/-! limb width: `build.rs` emits `fast_arithmetic=\"64\"` on every target with 64-bit pointers (the sandbox: x86_64);")
+    lines.append("    `math.rs` then has `type Limb = u64; type Wide = u128;` -/")
+    if '||target_pointer_width=="64"{println!("cargo:rustc-cfg=fast_arithmetic=\\"64\\"");}' not in br:
+        miss("lexical.math.width", "build.rs no longer selects fast_arithmetic=\"64\" for 64-bit pointer targets")
+    if '#[cfg(fast_arithmetic="64")]pubtypeLimb=u64;' not in mt or '#[cfg(fast_arithmetic="64")]typeWide=u128;' not in mt:
+        miss("lexical.math.width", "Limb = u64 / Wide = u128 under fast_arithmetic=\"64\" not found")
+    lines.append("def limbBits : Nat := 64")
+    m = re.search(r"pubconstKARATSUBA_CUTOFF:usize=(\d+);", mt)
+    if not m: miss("lexical.math.cutoff", "pub const KARATSUBA_CUTOFF: usize = n not found")
+    lines.append("/-- `large::KARATSUBA_CUTOFF` -/")
+    lines.append("def karatsubaCutoff : Nat := %s" % (m.group(1) if m else "0"))
+    lines.append("")
+    lp = src("lexical/large_powers64.rs")
+    lines.append("/-! `lexical/large_powers64.rs`: `POW5[k]` as little-endian 64-bit limb vectors (`Gen.largePow5` has them assembled) -/")
+    m = re.search(r"const\s+POW5\s*:\s*\[\s*&\[u64\]\s*;\s*(\d+)\s*\]\s*=\s*\[(.*?)\]\s*;", strip_rust_comments(lp), re.S)
+    rows = []
+    if not m: miss("lexical.math.POW5", "const POW5: [&[u64]; N] not found")
+    else:
+        names = [x.strip().lstrip("&") for x in m.group(2).split(",") if x.strip()]
+        if len(names) != int(m.group(1)): miss("lexical.math.POW5", "declared length differs from the number of entries")
+        for nm in names:
+            limbs = rust_array(lp, nm, "lexical.math." + nm)
+            if any(x >= 2 ** 64 for x in limbs): miss("lexical.math." + nm, "limb out of u64 range")
+            rows.append(limbs)
+    lines.append("def largePow5Limbs : List (List Nat) :=\n  [" + ",\n   ".join(lean_nat_list(r, 6).replace("\n   ", "\n    ") for r in rows) + "]")
+    if "pub(crate)uselarge_powers64::*;" not in re.sub(r"\s+", "", strip_rust_comments(src("lexical/large_powers.rs"))).replace("super::", ""):
+        miss("lexical.math.large_powers", "large_powers.rs no longer re-exports large_powers64 under fast_arithmetic=\"64\"")
+    lines.append("")
+    # shapes
+    ok = True
+    def modbody(name):
+        return fn_body(mt_raw, r"\nmod\s+%s\s*\{" % name)
+    for (mod, fn), want in LEXMATH_SHAPES.items():
+        key = "lexical.math." + (mod + "." if mod else "") + fn
+        scope = modbody(mod) if mod else mt_raw
+        body = fn_body(scope, r"fn\s+%s\s*(<[^>]*>)?\(" % fn) if scope else None
+        if body is None:
+            miss(key, "function not found"); ok = False; continue
+        if re.sub(r"\s+", "", strip_rust_comments(body)) != want:
+            miss(key, "body changed shape (Model/LexMath.lean transcribes `%s`)" % want[:60]); ok = False
+    hi = ["implHi64<u64>for[u64]{#[inline]fnhi64_1(&self)->(u64,bool){debug_assert!(self.len()==1);letr0=self[0];u64_to_hi64_1(r0)}",
+          "fnhi64_2(&self)->(u64,bool){debug_assert!(self.len()>=2);letr0=self[self.len()-1];letr1=self[self.len()-2];let(v,n)=u64_to_hi64_2(r0,r1);(v,n||nonzero(self,2))}",
+          "fnhi64_3(&self)->(u64,bool){self.hi64_2()}",
+          "fnhi64(&self)->(u64,bool){matchself.as_ref().len(){0=>(0,false),1=>self.hi64_1(),2=>self.hi64_2(),_=>self.hi64_3(),}}",
+          "fnfrom_u64(x:u64)->Self{letmutv=Self::default();letslc=split_u64(x);v.data_mut().extend_from_slice(&slc);v.normalize();v}",
+          "#[cfg(fast_arithmetic=\"64\")]fnsplit_u64(x:u64)->[Limb;1]{[as_limb(x)]}",
+          "fnimul_pow10(&mutself,n:u32){self.imul_pow5(n);self.imul_pow2(n);}",
+          "fnimul_pow2(&mutself,n:u32){self.ishl(nasusize);}",
+          "fnimul_pow5(&mutself,n:u32){small::imul_pow5(self.data_mut(),n);}",
+          "fnimul_small(&mutself,y:Limb){small::imul(self.data_mut(),y);}",
+          "fniadd_small(&mutself,y:Limb){small::iadd(self.data_mut(),y);}",
+          "fncompare(&self,y:&Self)->cmp::Ordering{large::compare(self.data(),y.data())}",
+          "fnbit_length(&self)->usize{small::bit_length(self.data())}",
+          "fnishl(&mutself,n:usize){small::ishl(self.data_mut(),n);}",
+          "fnhi64(&self)->(u64,bool){self.data().as_slice().hi64()}"]
+    for i, w in enumerate(hi):
+        if w not in mt:
+            miss("lexical.math.trait.%d" % i, "expression changed shape (expected `%s`)" % w[:70]); ok = False
+    lines.append("/-- every function of `math.rs` transcribed in `Model/LexMath.lean` still has the transcribed shape -/")
+    lines.append("def mathShapeAsTranscribed : Bool := %s" % ("true" if ok else "false"))
+
+
+GENERATORS.append(("LexMath", gen_lexmath))
+
+
 def main():
     os.makedirs(OUT, exist_ok=True)
     for name, fn in GENERATORS:
